@@ -70,6 +70,24 @@ pub fn overflow_risk(s: &str) -> bool {
     (sum + terms + 1.0) * prod >= 2.0e9
 }
 
+/// compact line for the extracted driver: code points, then one outcome per distinct entry-point result
+fn emit_compact(s: &str, ce: &ChemicalElements, out: &mut impl std::io::Write) {
+    let outs = outcomes(s, ce);
+    let same = outs.iter().all(|o| *o == outs[0]);
+    let cps: Vec<String> = s.chars().map(|c| (c as u32).to_string()).collect();
+    let enc = |o: &Value| -> String {
+        if o == "panic" { return "P".to_string(); }
+        if let Some(e) = o.get("err") { return format!("E{}", e); }
+        let ents: Vec<String> = o["ok"].as_array().unwrap().iter().map(|t| {
+            let sym: Vec<String> = t[0].as_str().unwrap().chars().map(|c| (c as u32).to_string()).collect();
+            format!("{}:{}:{}", sym.join("."), t[1], t[2])
+        }).collect();
+        format!("O{}", ents.join(";"))
+    };
+    let list: Vec<String> = if same { vec![enc(&outs[0])] } else { outs.iter().map(enc).collect() };
+    writeln!(out, "{}|{}", cps.join(","), list.join("|")).unwrap();
+}
+
 fn emit(id: usize, s: &str, ce: &ChemicalElements, ast: Option<Value>) {
     let outs = outcomes(s, ce);
     let same = outs.iter().all(|o| *o == outs[0]);
@@ -168,6 +186,27 @@ pub fn run(args: &[String]) {
     let syms = upper_syms();
     let mut rng = Rng::new(seed ^ 0xF0F0);
     match mode {
+        "exhc" => {
+            // seed 0: every string of length <= n over ALPHABET; seed k in 1..=14: the strings of
+            // length exactly n that start with ALPHABET[k-1] (one shard).  Compact lines on stdout.
+            let stdout = std::io::stdout();
+            let mut out = std::io::BufWriter::with_capacity(1 << 20, stdout.lock());
+            let a = ALPHABET.len();
+            let (lens, first): (Vec<usize>, Option<usize>) =
+                if seed == 0 { ((0..=n).collect(), None) } else { (vec![n], Some(seed as usize - 1)) };
+            for len in lens {
+                let free = if first.is_some() { len - 1 } else { len };
+                let total = (a as u64).pow(free as u32);
+                for mut code in 0..total {
+                    let mut idx = vec![0usize; free];
+                    for q in (0..free).rev() { idx[q] = (code % a as u64) as usize; code /= a as u64; }
+                    let mut s = String::new();
+                    if let Some(f) = first { s.push(ALPHABET[f]); }
+                    for i in idx { s.push(ALPHABET[i]); }
+                    emit_compact(&s, &ce, &mut out);
+                }
+            }
+        }
         "exh" => {
             // every string of length <= n over ALPHABET
             let mut id = 0usize;
@@ -184,6 +223,20 @@ pub fn run(args: &[String]) {
                     if idx[p] + 1 < ALPHABET.len() { idx[p] += 1; for q in p + 1..idx.len() { idx[q] = 0; } break; }
                 }
                 if idx.len() > n { break; }
+            }
+        }
+        "keys" => {
+            // every key of the table (pseudo-elements such as "e*" and "H+" included) as a whole formula, as a group body,
+            // counted, bracketed and next to an ordinary symbol: a lookup that trusts the text instead of the grammar shows here
+            let mut keys: Vec<String> = ce.periodic_table.elements.keys().cloned().collect();
+            keys.sort();
+            let mut id = 0;
+            for k in keys.iter() {
+                for s in [k.clone(), format!("({})2", k), format!("H2({})", k), format!("{}2", k), format!("{}H", k), format!("C{}", k),
+                          format!("{}[1]", k), format!("C[13]({})3", k), k.to_lowercase(), k.to_uppercase()] {
+                    emit(id, &s, &ce, None);
+                    id += 1;
+                }
             }
         }
         "rand" => {
